@@ -10,6 +10,7 @@ from .c16 import obligation
 LEVEL = 'proof'
 TECHNIQUE = 'static analysis: MIR provenance/guard rules for the graft structure + polynomial normal forms of the rewrite kernels (nothing executed)'
 RULES = {
+    'C02.R7': 'the links, leaf flags and node set this property reads are what the arena mutators maintain as their effect contracts say (shared with C12.R2)',
     'C02.R6': helpers.RULE_TEXT,
     'C02.R1': 'graft structure: worklist starts at (operand root, terminal); every operand edge is copied with its own label under the current copy; the new node is paired with that edge\'s target; nothing else is inserted',
     'C02.R2': 'role consistency: update_terminal exactly on the isleaf outcome of the operand node whose function is passed, update_decision otherwise',
@@ -18,7 +19,7 @@ RULES = {
     'C02.R5': 'right operand unchanged: taken by shared reference, never written through; the only interior-mutable field (polytope_cache) is scratch, cleared before use and before return',
 }
 WITNESSES = ['C02OperandBehindSharedRef', 'C02ComposeBorrowsOperand', 'C02ScratchCacheIsPrivate']  # thorough tier: compile_fail witnesses in /verif/witness
-FLOORS = {'C02.R6': 7, 'C02.R1': 4, 'C02.R2': 4, 'C02.R3': 7, 'C02.R4': 7, 'C02.R5': 6}
+FLOORS = {'C02.R7': 15, 'C02.R6': 7, 'C02.R1': 4, 'C02.R2': 4, 'C02.R3': 7, 'C02.R4': 7, 'C02.R5': 6}
 EXPLANATION = ('R1-R3 give a node-by-node simulation: the copy of g under terminal t routes x exactly as g routes T_t(x) and returns g(T_t(x)); missing children of the '
                'operand are missing in the copy (definedness). Surviving nodes keep their indices because the only writes are in-place updates of terminals and Slab insertions.')
 DOES_NOT_DECIDE = 'floating-point rounding near a hyperplane'
@@ -27,6 +28,7 @@ TRUSTED = ['semantics of ndarray dot/+/-/neg as interpreted in affcheck/kernel.p
 
 def run(ctx):
     helpers.run_for(ctx)
+    helpers.share_arena_contracts(ctx, 'C02.R7')
     F = ctx.facts
     g = ctx.body('C02.R1', 'AffTree::generic_composition_inplace')
     if g is not None:
